@@ -168,4 +168,58 @@ def permB {α} [BEq α] : List α → List α → Bool
 def consistentB (ix : Index) (rows : Rows) : Bool :=
   keysDistinctB ix && permB (livePairs ix) (rowPairs ix.cols rows)
 
+/-! ### entries with transaction stamps: what INSERT and DELETE of one transaction do to the index
+
+`maintain_secondary_indexes` stamps a new entry with the inserting transaction (`xmin`) and marks a deleted one with the
+deleting transaction (`xmax`); scans see an entry whose creator they see and whose deleter they do not see. -/
+
+structure TEntry where
+  key : List Value
+  rid : Nat
+  xmin : Nat
+  xmax : Option Nat := none
+  deriving DecidableEq, Repr, Inhabited
+
+structure TxDefects where
+  /-- a delete mark frees the entry for re-use only if the deleter committed before the inserter's snapshot: the
+      transaction's OWN delete does not count (the seeded change of wave 2; never shipped) -/
+  reuseNeedsCommittedDelete : Bool := false
+  /-- an entry without delete mark is kept even if the transaction that created it was rolled back
+      (shipped; repaired by 5b107bb) -/
+  keepsAbortedInsert : Bool := false
+  deriving Repr, Inhabited
+
+/-- the transactions whose effects `self` sees: itself and those committed before its snapshot -/
+def seen (committed : List Nat) (self t : Nat) : Bool := t == self || committed.contains t
+
+def TEntry.visible (committed : List Nat) (self : Nat) (e : TEntry) : Bool :=
+  seen committed self e.xmin && !(match e.xmax with
+    | some x => seen committed self x
+    | none => false)
+
+/-- INSERT arm: the entry found under the key is taken over if it is free — it carries a delete mark, or the
+    transaction that created it was rolled back; otherwise it is kept; no entry under the key: a new one -/
+def tInsert (D : TxDefects) (committed aborted : List Nat) (tid : Nat) (key : List Value) (rid : Nat) :
+    List TEntry → List TEntry
+  | [] => [{ key := key, rid := rid, xmin := tid }]
+  | x :: xs =>
+    if x.key = key then
+      let free := (!D.keepsAbortedInsert && aborted.contains x.xmin) ||
+        (match x.xmax with
+          | none => false
+          | some d => if D.reuseNeedsCommittedDelete then committed.contains d else true)
+      if free then { key := key, rid := rid, xmin := tid } :: xs else x :: xs
+    else x :: tInsert D committed aborted tid key rid xs
+
+/-- DELETE arm: the entry under the key, if the deleting transaction sees it, gets its delete mark -/
+def tDelete (committed : List Nat) (tid : Nat) (key : List Value) : List TEntry → List TEntry
+  | [] => []
+  | x :: xs =>
+    if x.key = key then (if x.visible committed tid then { x with xmax := some tid } :: xs else x :: xs)
+    else x :: tDelete committed tid key xs
+
+/-- the (key, row id) pairs a reader sees -/
+def tPairs (committed : List Nat) (self : Nat) (es : List TEntry) : List (List Value × Nat) :=
+  (es.filter (TEntry.visible committed self)).map (fun e => (e.key, e.rid))
+
 end AxVerif.Index
